@@ -26,7 +26,7 @@ def is_met(arg, env):
     if arg.startswith(('module:', 'env:')) and arg.count(':') != 1:
         return 'malformed'
     if arg.startswith('module:'):
-        return arg[7:] in env.get('modules', ['os', 'json'])
+        return arg[7:] in env.get('modules', ['os', 'json', 'json.decoder', 'xdoctest.utils'])
     if arg.startswith('env:'):
         expr = arg[4:]
         if '==' in expr:
